@@ -41,7 +41,13 @@ class Env:
         # `touch` so that rustc re-emits the MIR even when nothing changed
         os.utime("/repo/fe2o3-amqp/src/lib.rs", None) if os.access("/repo/fe2o3-amqp/src/lib.rs", os.W_OK) else None
         cmd = ["cargo", "+nightly", "rustc", "-p", "fe2o3-amqp", "--lib", "--offline", "--features", "acceptor,transaction,scram", "--target-dir", os.path.join(BUILD, "mir", "target"), "--", "-Zunpretty=mir", "-C", "overflow-checks=on", "-C", "debug-assertions=off"]
-        p = subprocess.run(cmd, cwd="/repo", env=env, stdout=subprocess.PIPE, stderr=subprocess.PIPE, text=True)
+        if os.environ.get("VERIF_DEV_MIR_CACHE") and os.path.exists(out):
+            # development only (never set by a registered command): reuse the last dump while writing obligations
+            class _P:
+                returncode, stdout, stderr = 0, open(out).read(), "cached"
+            p = _P()
+        else:
+            p = subprocess.run(cmd, cwd="/repo", env=env, stdout=subprocess.PIPE, stderr=subprocess.PIPE, text=True)
         with open(log, "w") as f:
             f.write(p.stderr)
         if p.returncode != 0 or len(p.stdout) < 1000:
